@@ -24,14 +24,14 @@ CLAIMED = {
          "Every result of every public constructor and categorical operation over the universes is decoded by a deep well-formedness checker written against the raw public fields and its type compared with the promised one; Hypergraph::new / OpenHypergraph::new see every combination of mismatched counts and codomains and must accept exactly the documented data and name a condition that really fails.",
          "small-scope bound; functor/optic/conversion outputs are deep-checked inside C10, C12-C14 by the same decoder", "DESIGN.md §4 C05"),
  'C06': ("bounded exhaustive enumeration of finite functions, pairs, (sizes,map) pairs and (surjection, map) pairs against functions-as-Vec",
-         "All finite functions with domain and codomain up to 4 (5), all ordered pairs of them, all raw tables, all block-wise injection arguments and all surjections crossed with all maps are pushed through the public API and compared with set-theoretic definitions; coequalizers are compared as partitions (too coarse and too fine both caught) and the universal map must exist exactly when the map is constant on fibres.",
-         "domains/codomains <= 4-5; numbering of coequalizer classes is free", "DESIGN.md §4 C06"),
+         "All finite functions with domain and codomain up to 4 (thorough: domain 6, codomain 5), all ordered pairs of them, all raw tables, all block-wise injection arguments and all surjections crossed with all maps are pushed through the public API and compared with set-theoretic definitions; coequalizers are compared as partitions (too coarse and too fine both caught) and the universal map must exist exactly when the map is constant on fibres.",
+         "quick: domains/codomains <= 4; thorough: domains <= 6, codomains <= 5 (every parallel pair into 6 for coequalizers); numbering of coequalizer classes is free", "DESIGN.md §4 C06"),
  'C07': ("bounded exhaustive enumeration of primitive arguments against scalar loops (any conforming answer accepted where the contract is open)",
          "Each of the ~35 array primitives is run on every argument combination within the bounds (arrays of length <=4 over values <=3, index arrays, all range forms, all small edge lists) and compared with its scalar definition inside the documented precondition.",
-         "array length <=4, values <=3; graphs <=4-5 nodes; scalar loops are the specification", "DESIGN.md §4 C07"),
+         "quick: array length <=4, values <=3, graphs <=4 nodes; thorough: length <=5 (<=8 for single-argument primitives), graphs <=5-6 nodes with <=5 edges; patterned arrays up to length 65; magnitudes around powers of two; element types usize, String, (), free terms; scalar loops are the specification", "DESIGN.md §4 C07"),
  'C08': ("bounded exhaustive enumeration of segmented arrays and operation arguments, list-of-lists decoding; exhaustive exploration of iterator call sequences",
          "Every segmented array with <=3-4 segments of size <=2 (of finite functions and of labels), every pair, every re-indexing and value map, and every raw (sizes, codomain, length) triple is run through the real API and decoded to lists of lists with the size invariant re-checked; the iterator state machines are explored over every call sequence of next/len/size_hint of length n+2 against a cursor model.",
-         "<=4 segments of size <=2; codomain <=3", "DESIGN.md §4 C08"),
+         "quick: <=3 segments of size <=2 over codomains <=3 (4 segments over codomains <=2 for the one-argument operations), re-indexing maps of length <=4; thorough: <=5 segments of size <=3", "DESIGN.md §4 C08"),
  'C09': ("explicit-state exploration: exhaustive inputs (all pending-pair lists) + breadth-first search over unify/quotient/new_node histories with exact-state deduplication + live-object history replay",
          "Every lax (open) hypergraph of the universes with every list of up to 3 pending pairs is quotiented by the real code (on the open hypergraph and on the bare hypergraph), then again; success/failure, the returned map (as a partition), every rewritten reference, the cleared pending list and - on failure - every public field are compared with the reference. Interleavings of unify/quotient/new_node are explored breadth-first to depth 8-12 and replayed on one live object.",
          "<=4-5 nodes, <=3 pending pairs; numbering of merged nodes is free", "DESIGN.md §4 C09"),
@@ -69,7 +69,7 @@ CLAIMED = {
          "The strict algorithms are instantiated at a second array backend whose four open choices follow a choice tape; for every input of the universes every tape with <=1 (quick) / <=2 deviations is executed and the result compared with the Vec backend's (isomorphic diagrams, identical predicates, Option-ness and evaluation outputs, layer validity); the backend's own conformance to the array contract is established by running the C07 oracle under every alternative of every choice point.",
          "deviation bound 1-2, <=4096 executions per input; only Vec and adversarial variants of it", "DESIGN.md §3.5, §4 C20"),
 }
-STRUCT = {"C01","C02","C03","C04","C05","C06","C07","C08","C10","C11","C12","C13","C14","C15","C16","C17","C18","C19","C20"}
+STRUCT = {"C01","C02","C03","C04","C05","C06","C07","C08","C09","C10","C11","C12","C13","C14","C15","C16","C17","C18","C19","C20"}
 NOT_YET = "check not built yet in this revision of /verif (work in progress; see DESIGN.md §4)"
 
 checks = []
@@ -79,8 +79,8 @@ for p in props:
     if pid in CLAIMED:
         tech, text, note, ref = CLAIMED[pid]
         if pid in STRUCT:
-            tech += "; plus completely enumerated structured families of larger inputs (sizes, depths, multiplicities, magnitudes near powers of two)"
-            text += " In addition to the exhaustive small universes, parametrised families of larger inputs (DESIGN.md §10.6) are enumerated completely for every size parameter up to a stated bound, because realistic faults exist that no input below the small-scope bound can show."
+            tech += "; plus completely enumerated structured families of larger inputs (size parameters up to 129 / 513, depths, multiplicities, magnitudes near powers of two, wide hyperedges and interfaces, many labels, every listing order of a 3-4 wire boundary, un-quotiented presentations of lax diagrams)"
+            text += " In addition to the exhaustive small universes, parametrised families of larger inputs (DESIGN.md §10.2, §10.6, §10.12) are enumerated completely for every size parameter up to a stated bound, because realistic faults exist that no input below the small-scope bound can show."
         checks.append({
             "property_id": pid,
             "quick_cmd": f"./check {pid} quick",
